@@ -67,6 +67,8 @@ func registry() map[string]*Rule {
 		{Name: "OPS4", Floor: 0, Run: ruleOPS4, Doc: "abstract evaluation with injected operand results: And/Or/Not return their truth tables on every path; Gt/GtEq/Lt/LtEq/Eq apply the right relation to the three-way comparison result"},
 		{Name: "OPS5", Floor: 0, Run: ruleOPS5, Doc: "abstract evaluation of UnaryCriteria.Satisfy over every equality pattern between listed operands and document values (lists/arrays of length 1-2): In = some equal, Contains = every listed element found, Eq = present and equal, Exists = present"},
 		{Name: "RNG2", Floor: 2, Run: ruleRNG2, Doc: "specialised on the direction flag, the conditions inside the emission loop of a range scan read only the far bound's Range fields"},
+		{Name: "SORT1", Floor: 0, Run: ruleSORT1, Doc: "abstract evaluation of the document comparator for one and two sort options over every (has, has, sign of Compare, direction): the sign equals the definition; first non-zero option decides"},
+		{Name: "SORT2", Floor: 0, Run: ruleSORT2, Doc: "abstract evaluation of the sort-option normaliser: negative direction -> -1, zero or positive -> +1"},
 	}
 	m := map[string]*Rule{}
 	for _, r := range rules {
@@ -143,8 +145,8 @@ func propertyTable() map[string]*Property {
 		},
 		"C08": {
 			Technique:   tSSA + "plan-pipeline type flow, sort-option normalisation dataflow, callback-loop error rules, comparator arithmetic check",
-			Rules:       []string{"PLAN4", "PLAN5", "PLAN7", "ERR3", "CMP2", "CMP1", "KEY5"},
-			Explanation: "Decides structural clauses of C08: the sort node never follows the skip/limit node (PLAN4: the window is cut from the ordered sequence); sort directions are normalised to +-1 and Sort() defaults to a literal (PLAN5); a limit stops the emission behind a sort and the stop does not leak (ERR3); the comparator the sort uses has no wrap-around and the documented type ranking (CMP2, CMP1).",
+			Rules:       []string{"PLAN4", "PLAN5", "PLAN7", "SORT1", "SORT2", "ERR3", "CMP2", "CMP1", "KEY5"},
+			Explanation: "Decides structural clauses of C08: the sort node never follows the skip/limit node (PLAN4: the window is cut from the ordered sequence); sort directions are normalised to +-1 and Sort() defaults to a literal (PLAN5), negative to -1 and zero/positive to +1 (SORT2, by abstract evaluation over the sign of the input); the document comparator, abstractly evaluated for one and two sort options over every combination of presence, comparison sign and direction (24 + 576 cases), returns the sign the definition gives: a negative direction reverses the key, the first non-zero key decides (SORT1); a limit stops the emission behind a sort and the stop does not leak (ERR3); the comparator the sort uses has no wrap-around and the documented type ranking (CMP2, CMP1).",
 			NotDecided:  "That windows are exactly [n, n+m), tie handling, multi-key order, correctness of sort elision and of reverse index scans. Narrow claim, stated as such.",
 			Assumptions: commonAssumptions,
 		},
